@@ -21,6 +21,29 @@ start :: fn do
     print(1)
 end
 '''),
+("function_annotated_with_an_enum_declared_elsewhere_ill_typed", False, {}, '''
+show :: fn c: Color -> int do
+    ret 1
+end
+Color :: enum
+    Red,
+    Green,
+end
+start :: fn do
+    print(show(42))
+end
+'''),
+("function_annotated_with_a_blob_declared_elsewhere_ill_typed", False, {}, '''
+area :: fn b: Box -> int do
+    ret b.w
+end
+Box :: blob {
+    w: int,
+}
+start :: fn do
+    print(area(42))
+end
+'''),
 ("independent_initialisers_with_side_effects", True, {"a": (0, 3)}, '''
 counter := ?a
 next :: fn -> int do
